@@ -133,6 +133,11 @@ def explore(spec, report, max_depth, max_states=None, sig_base=None, stop_on_fir
             d = mk()
         except Exception as e:   # noqa -- building a populated second instance uses ordinary operations only
             d = None
+            import traceback as _tb
+            frames = _tb.extract_tb(e.__traceback__)
+            lib = os.path.realpath(os.environ.get("VERIF_REPO", "/repo")) + os.sep
+            if not frames or not os.path.realpath(frames[-1].filename).startswith(lib):
+                raise       # raised by the harness itself, not inside the library: a harness error, not a verdict
             report.violation(dict(sig_base, kind="raises", op="second-instance"),
                              "%s: building a second, populated instance with ordinary operations raised %s: %s" % (
                                  spec.name, type(e).__name__, e),
